@@ -142,12 +142,12 @@ Definition trace_b (keys : list str) (cs : str) : list titem := lex_trace_b (S (
 (* ------------------------------------------------------------------ the printable token lists *)
 
 (* r: the tokens that follow.  While till_in is set the token is the variable of an iteration / quantified context: a single word
-   that is no keyword, not `item` (consume_name returns `item` before it looks at till_in and leaves the flag set), followed by
-   `in`; it need not be a scope key.  `function` is a keyword only in front of `(` *)
+   that is no keyword, followed by `in`; it need not be a scope key (`item` included since the repair of the item branch of
+   consume_name, which returned `item` before it looked at till_in and left the flag set).  `function` is a keyword only in front of `(` *)
 Definition tok_ok_b (keys : list str) (fl : flags) (t : ltoken) (r : list ltoken) : bool :=
   if f_tillin fl then
     match t with
-    | LName n => word_ok n && negb (NM.str_eqb n NM.str_item) && match r with LKw KIn :: _ => true | _ => false end
+    | LName n => word_ok n && match r with LKw KIn :: _ => true | _ => false end
     | _ => false
     end
   else
@@ -174,7 +174,7 @@ Fixpoint printable_b (keys : list str) (st : tstate) (fl : flags) (ts : list lto
   end.
 
 (* layouts: after `function` (look-ahead to the parenthesis: white space only) and after the variable of an iteration context (the
-   word `in` has to be the next name part: white space only, and none of the characters that are name characters as well) the gap
+   word `in` has to be the next name part: white space only; no white space character is a name character) the gap
    consists of white space; anywhere else it is any layout of the grammar of C06.Model *)
 Definition ws_piece (p : piece) : bool :=
   match p with PWs c => is_ws c && negb (NM.is_name_part c) | _ => false end.
@@ -189,3 +189,48 @@ Fixpoint gaps_ok_b (st : tstate) (fl : flags) (ts : list ltoken) (gaps : list (l
     (if tight_after fl t then forallb ws_piece (hd [] gaps) else true) &&
     let st' := lstep st t in gaps_ok_b st' (policy_b st' t (after_b fl t)) r (tl gaps)
   end.
+
+(* ------------------------------------------------------------------ the stream with consume_name as it was before the repair of its `item` branch
+   (Lexer.name_token_orig: `item` is returned with till_in left set): scan, next_token, lex_go_b, lex_b over it *)
+
+Definition scan_orig (keys : list str) (fl0 : flags) (cs : str) : lres :=
+  let fl := clr_unary fl0 in
+  match cs with
+  | [] => REof
+  | c :: r =>
+    match kw_scan kwtable (f_unary fl0) cs with
+    | Some (o, r') => kw_result o fl r'
+    | None =>
+      match sym2 cs with
+      | Some (s, r') => RTok (LSym s) fl r'
+      | None =>
+        if (c =? 46)%N && match r with d :: _ => NM.is_digit d | [] => false end
+        then let '(a, r') := digits r in RTok (LNum [48%N] a) fl r'
+        else match sym1 c with
+             | Some s => RTok (LSym s) fl r
+             | None =>
+               if (c =? 34)%N then string_token fl r
+               else if NM.is_digit c then let '(t, r') := numeric cs in RTok t fl r'
+               else if NM.is_name_start c then name_token_orig keys fl cs
+               else RUndef
+             end
+      end
+    end
+  end.
+
+Definition next_token_orig (keys : list str) (fl : flags) (cs : str) : lres := scan_orig keys fl (skip_layout (length cs) cs).
+
+Fixpoint lex_go_b_orig (fuel : nat) (keys : list str) (st : tstate) (fl : flags) (cs : str) : option (list ltoken) :=
+  match fuel with
+  | O => None
+  | S f =>
+    match next_token_orig keys fl cs with
+    | RTok t fl' rest =>
+      let st' := lstep st t in
+      match lex_go_b_orig f keys st' (policy_b st' t fl') rest with Some ts => Some (t :: ts) | None => None end
+    | REof => Some []
+    | RUndef | RErr => None
+    end
+  end.
+
+Definition lex_b_orig (keys : list str) (cs : str) : option (list ltoken) := lex_go_b_orig (S (length cs)) keys tstate0 flags0 cs.
